@@ -44,11 +44,25 @@ pub fn generate(g: &mut Gen) {
         vec![0.0, 1.0, 2.0],
         vec![0.25],
         vec![88.0, -88.0, 0.0, 104.0],
+        // vectors that already are probability vectors / one-hot (soft-max of them is NOT themselves)
+        vec![0.0, 1.0, 0.0],
+        vec![0.25, 0.25, 0.5],
+        vec![1.0],
+        vec![0.0, 0.0, 1.0, 0.0],
+        vec![1.0, 1.0, 2.0, 1.0],
+        vec![0.1, 0.2, 0.3, 0.4],
+        vec![0.5, 0.5],
+        vec![0.2; 5],
     ];
     for c in cases {
         let t = Tensor::single(c);
         g.push(format!("act.fwd softmax {}", qt(&t)), Tol::Tight, "softmax/extreme", true);
         g.push(format!("act.bwd softmax {}", qt(&t)), Tol::Tight, "softmax/extreme/bwd", true);
+    }
+    for v in [vec![0.0f32, 1.0, 0.0, 0.0, 0.0, 0.0], vec![0.125, 0.125, 0.25, 0.25, 0.125, 0.125]] {
+        let t3 = Tensor::triple(vec![v.chunks(3).map(|c| c.to_vec()).collect()]);
+        g.push(format!("act.fwd softmax {}", qt(&t3)), Tol::Tight, "softmax/probability-vector/3d", true);
+        g.push(format!("act.bwd softmax {}", qt(&t3)), Tol::Tight, "softmax/probability-vector/3d/bwd", true);
     }
     // seeded random stream
     for _ in 0..g.n(300, 6000) {
